@@ -1,5 +1,5 @@
 """C20 — block-size and score arithmetic on its entire domain (tables exhaustively, predicates by shape)."""
-from ..rules import data, blocksize
+from ..rules import data, blocksize, features
 
 EXPL = ("Decides: (1) SA-DATA, exhaustively over each table as evaluated by rustc: the 31 block-size strings equal decimal(3<<i); the de Bruijn "
         "constant/table pair maps every valid size 3<<i to i (unused slot 0xff) and log_from_valid reads exactly that table through "
@@ -12,7 +12,7 @@ EXPL = ("Decides: (1) SA-DATA, exhaustively over each table as evaluated by rust
 
 
 def run(ctx):
-    cfgs = ["rel"] if ctx.tier == "quick" else ["rel", "dbg", "unsafe", "nodef", "unchecked"]
+    cfgs = ["rel", "unchecked"] if ctx.tier == "quick" else ["rel", "dbg", "unsafe", "nodef", "unchecked"]
     ctx.progs(cfgs)  # build all configurations in parallel
     for c in cfgs:
         prog = ctx.prog(c)
@@ -23,4 +23,7 @@ def run(ctx):
         ctx.guard("C20", "log", lambda: blocksize.log_conversions(ctx, prog))
         ctx.guard("C20", "cap", lambda: blocksize.score_cap(ctx, prog))
         ctx.guard("C20", "raw", lambda: blocksize.raw_score(ctx, prog))
+        if c == "unchecked":
+            # the `_unchecked` forms of the same helpers are part of the documented surface: each is its `_internal` function
+            ctx.guard("C20", "twins", lambda: features.twins(ctx, prog, scope=r"block_size::|score_cap_on_block_hash_comparison|raw_score_by_edit_distance|is_near|compare_sizes|is_far", floor=4))
     return ctx.finish(EXPL, ["u32::is_power_of_two, wrapping_mul, Ord::min have their documented meaning", "rustc's const evaluation of the tables"])
